@@ -10,6 +10,7 @@ import ast
 from .. import AnalysisError
 from ..astutil import path_conditions, src, call_name, dotted, walk_local, try_fold, ancestors
 from ..fn import FA
+from ..normal import canon_test
 from .. import rx
 from .yannylib import row_dispatch_tests, YANNY, YannyClass
 from .c01 import check_intconv, upper_derived
@@ -147,7 +148,7 @@ def check_angle(ctx, yc):
     for st in stores:
         v = fa.deep(st.value)
         s = src(v)
-        ok = ".replace('<', '[')" in s and ".replace('>', ']')" in s
+        ok = _canonicalises(v, fa)
         n += 1
         ctx.check('C02.ANGLE', ok, f, st, 'type(): <,> are canonicalised to [,] before the type text is cached and returned',
                   msg='type() caches the type text without replacing < by [ and > by ]: legacy <n> columns are not recognised '
@@ -171,7 +172,7 @@ def check_angle(ctx, yc):
                             is_type_cache = True
                 if is_type_cache and not isinstance(fa2.deep(st.value), (ast.Dict,)) and 'dict()' not in src(st.value):
                     s = src(fa2.deep(st.value))
-                    ok = ".replace('<', '[')" in s and ".replace('>', ']')" in s
+                    ok = _canonicalises(fa2.deep(st.value), fa2)
                     n += 1
                     ctx.check('C02.ANGLE', ok, f, st, 'yanny.%s fills the type cache with canonicalised text' % m,
                               msg='yanny.%s fills the type cache without canonicalising <n> to [n]' % m,
@@ -215,13 +216,59 @@ def check_angle(ctx, yc):
     return n
 
 
+def _canonicalises(e, fa):
+    """Does the expression replace < by [ and > by ] in the text it builds: a chain of str.replace, or str.translate with a table that
+    maps exactly these pairs (str.maketrans('<>', '[]') or the dictionary form)."""
+    s = src(e)
+    if ".replace('<', '[')" in s and ".replace('>', ']')" in s:
+        return True
+    for c in ast.walk(e):
+        if isinstance(c, ast.Call) and isinstance(c.func, ast.Attribute) and c.func.attr == 'translate' and len(c.args) == 1:
+            t = c.args[0]
+            if isinstance(t, ast.Name) and fa is not None:
+                t = fa.resolve(t) or t
+            if isinstance(t, ast.Call) and isinstance(t.func, ast.Attribute) and t.func.attr == 'maketrans' and len(t.args) >= 2 \
+                    and all(isinstance(a, ast.Constant) and isinstance(a.value, str) for a in t.args[:2]) and len(t.args[0].value) == len(t.args[1].value):
+                m = dict(zip(t.args[0].value, t.args[1].value))
+                if m.get('<') == '[' and m.get('>') == ']':
+                    return True
+            if isinstance(t, ast.Call) and isinstance(t.func, ast.Attribute) and t.func.attr == 'maketrans' and len(t.args) == 1 and isinstance(t.args[0], ast.Dict):
+                t = t.args[0]
+            if isinstance(t, ast.Dict):
+                m = {}
+                for k, v in zip(t.keys, t.values):
+                    kk = try_fold(k) if k is not None else None
+                    if isinstance(k, ast.Call) and call_name(k) == 'ord' and k.args and isinstance(k.args[0], ast.Constant):
+                        kk = k.args[0].value
+                    if isinstance(kk, int):
+                        kk = chr(kk)
+                    m[kk] = v.value if isinstance(v, ast.Constant) else None
+                if m.get('<') == '[' and m.get('>') == ']':
+                    return True
+    return False
+
+
 def _canonical_text(e, fa, yc, depth=0):
     """Is the text the result of yanny.type() (canonicalised), or explicitly canonicalised here?"""
     if depth > 4:
         return False, ''
-    s = src(e)
-    if ".replace('<', '[')" in s and ".replace('>', ']')" in s:
+    if _canonicalises(e, fa):
         return True, 'on text canonicalised in place'
+    if isinstance(e, ast.Name) and fa.is_param(e) and e.id in fa.func.params and fa.func.name not in ('type', 'basetype'):
+        # the parameter of a helper: canonical when every call site within the class hands it canonical text
+        f = fa.func
+        pos = f.params.index(e.id)
+        bound = not any(isinstance(d, ast.Name) and d.id == 'staticmethod' for d in f.node.decorator_list)
+        sites = []
+        for m2, g in sorted(yc.methods.items()):
+            for c in walk_local(g.node):
+                if isinstance(c, ast.Call) and isinstance(c.func, ast.Attribute) and c.func.attr == f.name and isinstance(c.func.value, ast.Name) \
+                        and c.func.value.id in ('self', 'cls', 'yanny'):
+                    k = pos - (1 if bound else 0)
+                    a = c.args[k] if 0 <= k < len(c.args) else next((kw.value for kw in c.keywords if kw.arg == e.id), None)
+                    sites.append((g, a))
+        if sites and all(a is not None and _canonical_text(a, FA(g), yc, depth + 1)[0] for g, a in sites):
+            return True, 'on a parameter that receives the canonical text of self.type() at every call site (%d)' % len(sites)
     if isinstance(e, ast.Call) and isinstance(e.func, ast.Attribute) and isinstance(e.func.value, ast.Name) \
             and e.func.value.id == 'self' and e.func.attr in ('type', 'basetype'):
         return True, 'on the canonical text returned by self.%s()' % e.func.attr
@@ -240,11 +287,11 @@ def check_raw(ctx, yc):
     ctx.need(conv, '_parse: record-array conversion not found')
     for c in conv:
         under = False
-        for a in ancestors(c):
-            if isinstance(a, ast.If) and isinstance(a.test, ast.UnaryOp) and isinstance(a.test.op, ast.Not) and src(a.test.operand) == 'self.raw':
-                if any(c in list(ast.walk(b)) for b in a.body):
-                    under = True
-            if isinstance(a, ast.If) and src(a.test) == 'self.raw' and any(c in list(ast.walk(b)) for b in a.orelse):
+        for t, pol in path_conditions(c):
+            t = canon_test(t)
+            if isinstance(t, ast.UnaryOp) and isinstance(t.op, ast.Not):
+                t, pol = t.operand, not pol
+            if src(t) == 'self.raw' and not pol:
                 under = True
         ctx.check('C02.RAW', under, f, c, '_parse: `%s` runs only under `not self.raw`' % src(c)[:50],
                   msg='_parse converts tables to record arrays outside the `not self.raw` branch: raw mode no longer returns plain lists',
